@@ -1,6 +1,8 @@
 import UtilModel.Model.UU
+import UtilModel.Lemmas.UUText
 import UtilModel.Lemmas.TieTactics
-/-! # package `uu`: the model agrees with `parseDigit` as translated from the source on this run -/
+/-! # package `uu`: the model agrees with `parseDigit`, `ID.Version`, `ID.Variant` as translated from the source on this run -/
+set_option linter.unusedSimpArgs false
 namespace U.CodeTies
 open U
 
@@ -8,5 +10,63 @@ theorem parseDigit_tie (c : Nat) (au : Bool) :
     UU.parseDigit c au = (if (Gen.uu_parseDigit c au).2 then some (Gen.uu_parseDigit c au).1 else none) := by
   unfold UU.parseDigit Gen.uu_parseDigit
   cases au <;> ifchain
+
+/-! ## `ID.Version`, `ID.Variant`: masks and shifts of 64-bit words, compared as quotients and remainders -/
+
+theorem and_low_mask (x k : Nat) : x &&& (2 ^ k - 1) = x % 2 ^ k := Nat.and_two_pow_sub_one_eq_mod x k
+theorem low_mask_and (x k : Nat) : (2 ^ k - 1) &&& x = x % 2 ^ k := by rw [Nat.and_comm]; exact and_low_mask x k
+
+theorem and_bit_eq_zero (x k : Nat) : x &&& 2 ^ k = 0 ↔ x / 2 ^ k % 2 = 0 := by
+  have key : x &&& 2 ^ k = 0 ↔ x.testBit k = false := by
+    constructor
+    · intro h
+      have := congrArg (fun n => n.testBit k) h
+      simpa [Nat.testBit_and, Nat.testBit_two_pow] using this
+    · intro h
+      apply Nat.eq_of_testBit_eq
+      intro j
+      simp only [Nat.testBit_and, Nat.testBit_two_pow, Nat.zero_testBit]
+      by_cases hj : k = j
+      · subst hj; simp [h]
+      · simp [hj]
+  rw [key, Nat.testBit_eq_decide_div_mod_eq, decide_eq_false_iff_not]
+  omega
+theorem bit_and_eq_zero (x k : Nat) : 2 ^ k &&& x = 0 ↔ x / 2 ^ k % 2 = 0 := by rw [Nat.and_comm]; exact and_bit_eq_zero x k
+
+/-- the masks that occur, as instances with numerals (simp cannot see `15 = 2^4 - 1`) -/
+theorem and_15 (x : Nat) : x &&& 15 = x % 16 := and_low_mask x 4
+theorem and_15' (x : Nat) : 15 &&& x = x % 16 := low_mask_and x 4
+theorem and_b63 (x : Nat) : x &&& 9223372036854775808 = 0 ↔ x / 9223372036854775808 % 2 = 0 := and_bit_eq_zero x 63
+theorem and_b62 (x : Nat) : x &&& 4611686018427387904 = 0 ↔ x / 4611686018427387904 % 2 = 0 := and_bit_eq_zero x 62
+theorem and_b61 (x : Nat) : x &&& 2305843009213693952 = 0 ↔ x / 2305843009213693952 % 2 = 0 := and_bit_eq_zero x 61
+theorem and_b63' (x : Nat) : 9223372036854775808 &&& x = 0 ↔ x / 9223372036854775808 % 2 = 0 := bit_and_eq_zero x 63
+theorem and_b62' (x : Nat) : 4611686018427387904 &&& x = 0 ↔ x / 4611686018427387904 % 2 = 0 := bit_and_eq_zero x 62
+theorem and_b61' (x : Nat) : 2305843009213693952 &&& x = 0 ↔ x / 2305843009213693952 % 2 = 0 := bit_and_eq_zero x 61
+
+/-- an if-chain over masks/shifts of words below 2^64, against quotient/remainder form -/
+macro "wordprop" : tactic =>
+  `(tactic| (simp only [beq_iff_eq, bne_iff_ne, ne_eq, decide_eq_true_eq, Bool.and_eq_true, Bool.or_eq_true, Bool.not_eq_true',
+               beq_eq_false_iff_ne, decide_eq_false_iff_not, eq_comm (a := (0 : Nat)),
+               Nat.shiftRight_eq_div_pow, and_15, and_15', and_b63, and_b62, and_b61, and_b63', and_b62', and_b61', Nat.reducePow]
+             try (repeat' split)
+             all_goals first | omega | (simp_all; omega)))
+
+theorem version_tie (i : UU.ID) : i.version = Gen.uu_Version i.hi.toNat i.lo.toNat := by
+  rw [UU.version_nibble, UU.nibble_hi i 12 (by decide)]
+  have hh := i.hi.isLt
+  have hl := i.lo.isLt
+  generalize i.hi.toNat = h at *
+  generalize i.lo.toNat = l at *
+  unfold Gen.uu_Version
+  wordprop
+
+theorem variant_tie (i : UU.ID) : i.variant = Gen.uu_Variant i.hi.toNat i.lo.toNat := by
+  rw [UU.variant_nibble, UU.nibble_lo i 16 (by decide) (by decide)]
+  have hh := i.hi.isLt
+  have hl := i.lo.isLt
+  generalize i.hi.toNat = h at *
+  generalize i.lo.toNat = l at *
+  unfold Gen.uu_Variant UU.leadingOnes3
+  wordprop
 
 end U.CodeTies
